@@ -279,6 +279,9 @@ add("refactor_igraph_built_by_hand", (CAN, "    m_igraph = iGraph.from_networkx(
 add("igraph_built_by_hand_with_labels", (CAN, "    m_igraph = iGraph.from_networkx(m)\n", "    m_igraph = iGraph(n=m.number_of_nodes(), edges=list(m.edges()))\n    m_igraph.vs[\"_nx_name\"] = list(m)\n    m_igraph.vs[PARTITION] = [p for _, p in m.nodes(data=PARTITION)]\n"), fires={"R-BLISS"})
 add("refactor_skip_bliss_when_discrete", (CAN, "    m_igraph = iGraph.from_networkx(m)\n", "    classes = nx.get_node_attributes(m, PARTITION)\n    if len(set(classes.values())) == m.number_of_nodes():\n        return classes\n    m_igraph = iGraph.from_networkx(m)\n"), silent=True, note="classes used as labels when they are pairwise distinct")
 add("skip_bliss_when_no_bonds", (CAN, "    m_igraph = iGraph.from_networkx(m)\n", "    classes = nx.get_node_attributes(m, PARTITION)\n    if len(set(classes.values())) == m.number_of_nodes() or m.number_of_edges() == 0:\n        return classes\n    m_igraph = iGraph.from_networkx(m)\n"), fires={"R-BIJ", "R-BLISS"})
+add("refactor_v3000_tokenizer_keeps_value_lists", (V3, '    split_lines = [line.rstrip().split(" ") for line in lines]\n\n    return [[value for value in line if value != ""] for line in split_lines]', '    return [re.findall(r"[^ (]*\\([^)]*\\)|[^ ]+", line.rstrip()) for line in lines]'), silent=True, note="parenthesised value lists stay one token; the ENDPTS pattern copes with any blanks")
+add("refactor_v3000_endpts_pattern_single_blanks", (V3, '    endpts_pattern = re.compile(r"ENDPTS=\\(.+\\)")', '    endpts_pattern = re.compile(r"ENDPTS=\\(\\d+(?: \\d+)*\\)")'), silent=True, note="tokens hold no blanks and are joined with single ones")
+add("v3000_value_lists_kept_and_single_blank_pattern", [(V3, '    split_lines = [line.rstrip().split(" ") for line in lines]\n\n    return [[value for value in line if value != ""] for line in split_lines]', '    return [re.findall(r"[^ (]*\\([^)]*\\)|[^ ]+", line.rstrip()) for line in lines]'), (V3, '    endpts_pattern = re.compile(r"ENDPTS=\\(.+\\)")', '    endpts_pattern = re.compile(r"ENDPTS=\\(\\d+(?: \\d+)*\\)")')], fires={"R-TOKENS"})
 add("refactor_parser_inline_add_bond", (PAR, "        self._add_bond(index1, index2)", "        self._bonds.append((index1 - 1, index2 - 1))"), silent=True)
 add("refactor_sort_by_label_add_node", (GU, '''    nodes_sorted_by_label = sorted(list(m.nodes(data=True)))
 
